@@ -405,4 +405,115 @@ theorem unquoteSingle_quoteSingleSafe (s : Bytes) : unquoteSingle (quoteSingleSa
     strconvUnquote_quoteDouble]
   simp [swapQuotes_swapQuotes]
 
+/-! ### the exclusion is exact: with a backslash directly before an apostrophe the round trip fails -/
+
+theorem quoteBody_append (q : UInt8) (esc : Bool) (a b : Bytes) :
+    quoteBody q esc (a ++ b) = quoteBody q esc a ++ quoteBody q esc b := by
+  induction a with
+  | nil => rfl
+  | cons c cs ih => simp [quoteBody, ih]
+
+theorem unqLoop_prefix : ∀ (u : Bytes) (f : Nat) (Z : Bytes),
+    unqLoop (f + u.length) (quoteBody 34 false u ++ Z) = (unqLoop f Z).map (u ++ ·) := by
+  intro u
+  induction u with
+  | nil => intro f Z; simp [quoteBody]
+  | cons c cs ih =>
+    intro f Z
+    simp only [quoteBody, List.append_assoc, List.length_cons]
+    rw [show f + (cs.length + 1) = (f + cs.length) + 1 from by omega, unqLoop_shape (quoteByte_shape c), ih]
+    cases unqLoop f Z <;> simp
+
+theorem unqLoop_bad_escape (f : Nat) (Y : Bytes) : unqLoop (f + 1) (92 :: 39 :: Y) = none := by
+  have : simpleEscape 39 = none := by decide
+  have h2 : isOctDigit 39 = false := by decide
+  simp [unqLoop, this, h2]
+
+/-- the first backslash-quote pair of a string that has one. -/
+theorem exists_first_pair (q : UInt8) : ∀ (s : Bytes) (a : UInt8), noPairGo q a s = false →
+    (a = 92 ∧ s.head? = some q) ∨
+    ∃ u v, s = u ++ 92 :: q :: v ∧ noPairGo q a (u ++ [92]) = true := by
+  intro s
+  induction s with
+  | nil => intro a h; simp [noPairGo] at h
+  | cons b r ih =>
+    intro a h
+    by_cases hp : a = 92 ∧ b = q
+    · exact Or.inl ⟨hp.1, by simp [hp.2]⟩
+    · have hpair : (a == 92 && b == q) = false := by
+        cases ha : (a == 92) <;> cases hb : (b == q) <;> simp_all
+      have hh : noPairGo q b r = false := by
+        simp only [noPairGo, hpair, Bool.not_false, Bool.true_and] at h
+        exact h
+      right
+      rcases ih b hh with ⟨hb, hr⟩ | ⟨u, v, hs, hu⟩
+      · cases r with
+        | nil => simp at hr
+        | cons c r' =>
+          simp only [List.head?_cons, Option.some.injEq] at hr
+          subst hb hr
+          exact ⟨[], r', rfl, by simp [noPairGo, hpair]⟩
+      · refine ⟨b :: u, v, by simp [hs], ?_⟩
+        simp only [List.cons_append, noPairGo, hpair, Bool.not_false, Bool.true_and]
+        exact hu
+
+theorem noPairGo_prefix (q : UInt8) (a : UInt8) (A B : Bytes) (h : noPairGo q a (A ++ B) = true) :
+    noPairGo q a A = true := by
+  rw [noPairGo_append, Bool.and_eq_true] at h
+  exact h.1
+
+/-- D16, in general: if `s` has a backslash directly before an apostrophe, `UnquoteDoubleQuoted`
+rejects what the natural printer wrote. -/
+theorem unquoteDouble_quoteDouble_fails (s : Bytes) (h : noPair 39 s = false) :
+    unquoteDouble (quoteDouble s) = none := by
+  -- locate the first pair
+  have hex : ∃ u v, s = u ++ 92 :: 39 :: v ∧ noPair 39 (u ++ [92]) = true := by
+    cases s with
+    | nil => simp [noPair] at h
+    | cons a t =>
+      rcases exists_first_pair 39 t a h with ⟨ha, ht⟩ | ⟨u, v, ht, hu⟩
+      · cases t with
+        | nil => simp at ht
+        | cons c t' =>
+          simp only [List.head?_cons, Option.some.injEq] at ht
+          exact ⟨[], t', by simp [ha, ht], by simp [noPair, noPairGo]⟩
+      · exact ⟨a :: u, v, by simp [ht], by simpa [noPair] using hu⟩
+  obtain ⟨u, v, hs, hu⟩ := hex
+  subst hs
+  -- the rendering around the pair
+  have hrender : quoteDouble (u ++ 92 :: 39 :: v) =
+      34 :: ((quoteBody 34 false u ++ [92]) ++ 92 :: (39 :: (quoteBody 34 false v ++ [34]))) := by
+    simp [quoteDouble, quoteBody_append, quoteBody, quoteByte]
+  have hnp : noPairGo 39 34 ((quoteBody 34 false u ++ [92]) ++ [92]) = true := by
+    have := noPair_quote (q := 34) (q' := 39) (Or.inl ⟨rfl, rfl⟩) (u ++ [92]) hu
+    simp only [noPair, quoteBody_append, quoteBody, quoteByte, List.append_assoc] at this
+    apply noPairGo_prefix 39 34 _ [34]
+    simpa using this
+  unfold unquoteDouble
+  rw [hrender]
+  simp only [unescapeQuotes]
+  rw [ueGo_prefix 39 _ 34 92 _ hnp]
+  simp only [unescapeQuotes]
+  rw [ueGo_cons, if_pos ⟨rfl, rfl⟩]
+  simp only [strconvUnquote, List.append_assoc, List.cons_append, List.nil_append]
+  have hlen : ∃ f, (quoteBody 34 false u ++ 92 :: 39 :: unescapeQuotes 39 (quoteBody 34 false v ++ [34])).length + 1
+      = (f + 1) + u.length := by
+    have := quoteBody_length_ge 34 false u
+    refine ⟨(quoteBody 34 false u).length - u.length + (unescapeQuotes 39 (quoteBody 34 false v ++ [34])).length + 2, ?_⟩
+    simp; omega
+  obtain ⟨f, hf⟩ := hlen
+  rw [hf, unqLoop_prefix, unqLoop_bad_escape]
+  rfl
+
+/-- `UnquoteDoubleQuoted ∘ quoteDouble` is the identity EXACTLY on the strings without a
+backslash directly before an apostrophe. -/
+theorem unquoteDouble_quoteDouble_iff (s : Bytes) :
+    unquoteDouble (quoteDouble s) = some s ↔ noPair 39 s = true := by
+  constructor
+  · intro h
+    cases hn : noPair 39 s with
+    | true => rfl
+    | false => rw [unquoteDouble_quoteDouble_fails s hn] at h; cases h
+  · exact unquoteDouble_quoteDouble s
+
 end ThriftVerif.Idl
